@@ -1027,6 +1027,11 @@ class VMDKInspector(FileInspector):
             LOG.warning('Unsupported VMDK format %r', self.vmdktype)
             return 0
 
+        if not self.has_region('header'):
+            # A text-only descriptor file has no sparse header that could
+            # tell us the capacity
+            return 0
+
         # If we have the descriptor, we definitely have the header
         _sig, _ver, _flags, sectors, _grain, _desc_sec, _desc_num = (
             struct.unpack('<IIIQQQQ', self.region('header').data[:44]))
